@@ -93,6 +93,8 @@ func c13Alphabet() map[string]c13Msg {
 		// delete of the entry and a JSON blob for it in one notification
 		{Name: "rJ", Dels: []Path{P("if", e1)}, JSON: &c13JSON{At: P("if", e1), Doc: `{"descr":"j2"}`, Leaves: []Leaf{leaf("j2", "if", e1, "descr")}}},
 		{Name: "rE1", Dels: []Path{P("if", e1)}, Upds: []Leaf{leaf("n", "if", e1, "descr")}},
+		// a scalar update and a JSON blob in one notification
+		{Name: "uMJ", Upds: []Leaf{leaf("1400", "sys", "mtu")}, JSON: &c13JSON{At: P("if", e1), Doc: `{"descr":"j3"}`, Leaves: []Leaf{leaf("j3", "if", e1, "descr")}}},
 		// notifications that leave nothing to store sit between two that touch the same path
 		{Name: "uE"},
 		{Name: "uBad", Bad: true},
@@ -656,6 +658,7 @@ func c13Sequences() [][]string {
 		}
 		seqs = append(seqs, []string{"START", "uA", mid, "uB", "END"})
 	}
+	seqs = append(seqs, []string{"uMJ"}, []string{"uA", "uMJ"}, []string{"uMJ", "dM"}, []string{"START", "uMJ", "END"})
 	// two cycles
 	seqs = append(seqs, []string{"START", "uA", "uX", "END", "START", "uX", "END"}, []string{"START", "uA", "END", "uB", "START", "uX", "END"})
 	return seqs
@@ -666,7 +669,7 @@ func c13Scenarios(u *Universe) []schedScenario {
 	for _, seq := range c13Sequences() {
 		hasState := false
 		for _, s := range seq {
-			if s == "uS" || s == "uJ" || s == "dSD" || s == "dDS" || s == "uSD" {
+			if s == "uS" || s == "uJ" || s == "uMJ" || s == "dSD" || s == "dDS" || s == "uSD" {
 				hasState = true
 			}
 		}
